@@ -241,7 +241,7 @@ async def run_history(sh, rig, r, mode, nev):
         elif mode == "serial":
             x = r.random()
             if x < 0.45:
-                h.statp(r.choice([0, 1, 1, 2, 5, 12]))
+                h.statp(r.choice([0, 1, 1, 2, 5, 12, 12, 127, 128, 200, 250]))
             elif x < 0.60:
                 h.do_set()
             elif x < 0.75:
@@ -341,6 +341,7 @@ def main(tier, seed):
     run.need(run.counters.get("long_connection_rounds", 0) >= 10, "the long-lived connection (two sequence wrap-arounds of acknowledgements) was not driven")
     run.need(run.counters.get("statp_sent_twice_verbatim", 0) > 20, "no partial update was sent twice verbatim")
     run.need(run.counters.get("silent_reverts_between_identical_refreshes", 0) > 10, "no update between two identical refreshes")
+    run.need(any(int(x) >= 128 for x in run.sets.get("statp_sizes", set())), "no partial update with 128 or more records")
     run.need("0" in run.sets.get("statp_sizes", set()), "no zero-change partial update sent")
     run.need(run.counters.get("statp_with_restoring_record", 0) > 20, "no partial update with a record restoring the previous value")
     return run.finish(
